@@ -81,7 +81,7 @@ func scenarioC18(r *Run) {
 	var msgs []*sharedMsg
 	nmsg := 1 + t.Choose(2, "c18.nmsg")
 	for i := 0; i < nmsg; i++ {
-		spec := genSpec(t, SpecOpts{MaxExtra: 3, MaxSigner: 3, Cheap: true})
+		spec := genSpec(t, SpecOpts{MaxExtra: 3, MaxSigner: 5, Cheap: true})
 		foreign := t.Bool(1, 3, "c18.foreign")
 		var w *Wire
 		var is *Issued
@@ -244,6 +244,24 @@ func scenarioC18(r *Run) {
 						}
 						return nil, sm.m1.Verify(ext, others[0])
 					})
+				}}
+			})
+		}
+		if sm.ms != nil {
+			// one call with verifiers of the caller's own that keep state (a
+			// call counter, as a metering or kid-resolving verifier does): the
+			// object is this goroutine's alone, so nothing may touch it from
+			// anywhere else while the call runs
+			menu = append(menu, func() c18Op {
+				return c18Op{"Verify(" + sm.desc + ", own stateful verifiers)", func() c18Result {
+					n := 0
+					own := make([]cose.Verifier, len(sm.vs))
+					for i, v := range sm.vs {
+						own[i] = &countingVerifier{inner: v, n: &n}
+					}
+					res := guard(func() ([]byte, error) { return nil, sm.ms.Verify(ext, own...) })
+					res.bytes = []byte{byte(n)}
+					return res
 				}}
 			})
 		}
@@ -685,4 +703,16 @@ func verifiersOfOtherKeys(r *Run, t *tape.Tape, spec *MsgSpec) []cose.Verifier {
 		out[i] = r.verifierFor(o, false)
 	}
 	return out
+}
+
+// countingVerifier is an application verifier with state of its own.
+type countingVerifier struct {
+	inner cose.Verifier
+	n     *int
+}
+
+func (c *countingVerifier) Algorithm() cose.Algorithm { return c.inner.Algorithm() }
+func (c *countingVerifier) Verify(content, signature []byte) error {
+	*c.n = *c.n + 1
+	return c.inner.Verify(content, signature)
 }
